@@ -215,7 +215,14 @@ func (dp *DPoVP) saveNewBlock(block *types.Block) error {
 		dp.onCurrentChanged(oldCurrent, dp.CurrentBlock())
 	} else {
 		// 该块插入到了其他分支上，把该block中的交易push到本分支状态的交易池中
-		dp.txPool.AddTxs(block.Txs)
+		// skip the transactions which are on the current branch already, or they would be packaged again
+		sideTxs := make(types.Transactions, 0, len(block.Txs))
+		for _, tx := range block.Txs {
+			if !dp.txGuard.ExistTx(dp.CurrentBlock().Hash(), tx) {
+				sideTxs = append(sideTxs, tx)
+			}
+		}
+		dp.txPool.AddTxs(sideTxs)
 	}
 
 	// 如果是出现了新的稳定块
